@@ -63,6 +63,7 @@ import (
 	"seehuhn.de/go/postscript"
 
 	"verif/mc"
+	"verif/env"
 	cm "verif/model/cmapmodel"
 	"verif/model/observe"
 )
@@ -241,6 +242,16 @@ func run(c *mc.Ctx, f cm.File, data []byte, desc, faultAt string) mc.Verdict {
 	var src io.Reader = bytes.NewReader(data)
 	if len(data)%2 == 1 {
 		src = &dataWithEOF{data: data}
+	} else if len(data)%4 == 2 {
+		// chunks of 1..64 bytes with an idle read (0, nil) between any two (io.Reader permits it)
+		es := env.NewSource(data)
+		es.Decide = func(call, want, remaining int) (int, bool) {
+			if call%2 == 1 {
+				return -1, false
+			}
+			return 1 + (call*7)%64, false
+		}
+		src = es
 	}
 	if len(data)%3 == 0 {
 		// every third file has been read once before, and the caller has
